@@ -635,12 +635,13 @@ func init() {
 	})
 	register(&Check{
 		ID: "C15", Level: "model_checking",
-		Rule:        "full hand tree of the first hand plus a check-down second hand per configuration and action time in {0,1,10,30}s, the virtual clock advanced 3s before every wager action; every published RoundStarted snapshot asking an unmoved player for a wager action must carry deadline = virtual time of publication + action time, RoundClosed / opened / standby must carry 0, and extensions by 1s and 15s at every turn must return and publish old+d",
+		Rule:        "full hand tree of the first hand plus a check-down second hand per configuration and action time in {0,1,10,30}s, the virtual clock advanced 3s before every wager action; every published RoundStarted snapshot asking an unmoved player for a wager action must carry deadline = virtual time of publication + action time, RoundClosed / opened / standby must carry 0, and extensions by 1s and 15s at every turn must return and publish old+d; plus every schedule (<= 2 preemptions, fine mode) of a 15s extension requested at the same time as the asked player's answer: the next player's published deadline must be request time + action time, plus 15s iff the extension's return value says it was applied after the turn moved",
 		Assumptions: []string{"the clock is virtual, so equality is exact (seconds)", "2-4 participants"},
 		Suites: func(tier string) []*Suite {
-			return handTreeSuites("c15/", c15Configs(tier), func(hc *handCfg) func(td *TD) []Monitor {
+			ss := handTreeSuites("c15/", c15Configs(tier), func(hc *handCfg) func(td *TD) []Monitor {
 				return func(td *TD) []Monitor { return []Monitor{&monC15{extend: true}} }
 			})
+			return append(ss, c15RaceSuites(tier)...)
 		},
 	})
 	register(&Check{
